@@ -512,6 +512,29 @@ pub fn gen_c03(out: &mut Out, rng: &mut Rng, thorough: bool) {
         let codec = codecs[i % codecs.len()];
         monitor_line(out, &format!("stream {codec} {evs}"));
     }
+    // junk that dribbles in: more than a maximal frame of it, a few bytes per read, so that no
+    // single decode call runs out of retries – whatever the decoder keeps must stay bounded
+    for i in 0..(if thorough { 400 } else { 40 }) {
+        let total = rng.range(300, if thorough { 6000 } else { 1500 });
+        // half of them bytes that are never a function code: each is dropped as soon as the next
+        // one arrives, so a decode call never sees more than one read's worth of them
+        let data = if i % 4 < 2 {
+            const NON_FC: &[u8] = &[0x00, 0x80, 0x41, 0x44, 0x48, 0x64, 0x6A, 0x6E];
+            (0..total).map(|_| *rng.pick(NON_FC)).collect::<Vec<u8>>()
+        } else {
+            junk_stream(rng, total)
+        };
+        let mut chunks = vec![];
+        let mut at = 0;
+        let piece = rng.range(1, 19);
+        while at < data.len() {
+            let k = if rng.bool() { piece } else { rng.range(1, 19) }.min(data.len() - at);
+            chunks.push(data[at..at + k].to_vec());
+            at += k;
+        }
+        let codec = ["rtusrv", "rtucli"][i % 2];
+        monitor_line(out, &format!("stream {codec} {}", chunks_tok(&chunks)));
+    }
     // the client surfaces: what a peer's reply can do to a caller of the typed API and of `call`
     {
         let unit = rng.u8();
@@ -577,7 +600,14 @@ pub fn mon_c03(out: &mut Out, l: &str, r: &str) {
     out.check(!r.contains("fuel"), || "decoder did not terminate within its step bound".into(), l);
     if let Some(rest) = l.strip_prefix("stream ") {
         let codec = rest.split(' ').next().unwrap_or("");
-        if let Some(b) = r.rsplit(" ; buf ").next().and_then(|s| s.parse::<usize>().ok()) {
+        let tail = r.rsplit(" ; buf ").next().unwrap_or("");
+        let mut tf = tail.split(" ; dropped ");
+        let buf = tf.next().and_then(|s| s.parse::<usize>().ok());
+        if let Some(d) = tf.next().and_then(|s| s.parse::<usize>().ok()) {
+            // the frame decoder's record of dropped bytes is part of what a connection holds
+            out.check(d <= 256, || format!("{codec} remembers {d} dropped bytes (bound 256)"), l);
+        }
+        if let Some(b) = buf {
             let bound = if codec == "rtusrv" {
                 BUF_BOUND_RTU_REQ
             } else {
